@@ -5,6 +5,7 @@ mod fuzz;
 mod observe;
 mod project;
 mod states;
+mod sweeps;
 
 use serde_json::{json, Value};
 use std::io::{BufRead, BufReader, BufWriter, Write};
@@ -80,6 +81,7 @@ fn main() {
         "fuzz" => fuzz::cmd_fuzz(&args[2..]),
         "defrag" => defrag::cmd_defrag(&args[2..]),
         "defrag-fuzz" => defrag::cmd_defrag_fuzz(&args[2..]),
+        "sweep-sites" => sweeps::cmd_sites(&args[2..]),
         "states-sweep" => states::cmd_sweep(&args[2..]),
         "states-run" => states::cmd_run(&args[2..]),
         "states-fuzz" => states::cmd_fuzz(&args[2..]),
